@@ -141,6 +141,9 @@ type c04hState struct {
 	ing     map[uint64]*c04hIngress
 	connMu  sync.Mutex
 	conns   []net.Conn
+	sawDead bool // a ping of this case already ran into the long deadline: later ones use a short one
+	seen    map[uint64]bool
+	reused  map[uint64]bool // tcp/fwd stream ids opened more than once: liveness is a race in the code (model: anyof)
 }
 
 var c04hCur *c04hState
@@ -260,6 +263,13 @@ func (s *c04hState) waitFor(d time.Duration, cond func() bool) bool {
 }
 
 func (s *c04hState) open(stream, req uint64, mode string) string {
+	if s.seen == nil {
+		s.seen, s.reused = map[uint64]bool{}, map[uint64]bool{}
+	}
+	if s.seen[stream] && (s.kind == "tcp" || s.kind == "fwd") {
+		s.reused[stream] = true
+	}
+	s.seen[stream] = true
 	in := s.ing[stream]
 	if in == nil || mode == "fresh" {
 		priv, pub, err := crypto.GenerateEphemeralKeypair()
@@ -289,7 +299,7 @@ func (s *c04hState) open(stream, req uint64, mode string) string {
 		ack = &c04hAck{stream: stream, req: req, pub: pub, ok: code == 0}
 	}
 	if ack == nil {
-		s.waitFor(4*time.Second, func() bool { return len(s.w.acks) > n0 })
+		s.waitFor(60*time.Second, func() bool { return len(s.w.acks) > n0 }) // event-driven; only a handler that never answers pays this
 		s.w.mu.Lock()
 		if len(s.w.acks) > n0 {
 			a := s.w.acks[len(s.w.acks)-1]
@@ -323,7 +333,10 @@ func (s *c04hState) ping(stream uint64, payload []byte) string {
 	n0 := len(s.w.data[stream])
 	faulty := s.w.failK > 0
 	s.w.mu.Unlock()
+	sent := false
+	resend := func() {}
 	if in != nil && in.key != nil && !in.closed {
+		sent = true
 		switch s.kind {
 		case "tcp", "fwd":
 			ct, err := in.key.Encrypt(payload)
@@ -334,13 +347,18 @@ func (s *c04hState) ping(stream uint64, payload []byte) string {
 				s.fwdH.HandleStreamData(s.peer, stream, ct, 0)
 			}
 		case "udp":
-			ct, err := in.key.Encrypt(payload)
-			must(err)
-			a := s.udpEcho.LocalAddr().(*net.UDPAddr)
-			s.udpH.HandleUDPDatagram(s.peer, stream, &protocol.UDPDatagram{AddressType: protocol.AddrTypeIPv4, Address: a.IP.To4(), Port: uint16(a.Port), Data: ct})
+			resend = func() { // datagrams may be lost: each re-send is a new datagram under the next counter
+				ct, err := in.key.Encrypt(payload)
+				must(err)
+				a := s.udpEcho.LocalAddr().(*net.UDPAddr)
+				s.udpH.HandleUDPDatagram(s.peer, stream, &protocol.UDPDatagram{AddressType: protocol.AddrTypeIPv4, Address: a.IP.To4(), Port: uint16(a.Port), Data: ct})
+			}
+			resend()
 		case "shell":
 			marker = []byte(hex.EncodeToString(payload))
-			if !in.shellMeta {
+			if in.shellMeta {
+				sent = false // the stream's one command has been run already
+			} else {
 				in.shellMeta = true
 				meta, err := shell.EncodeMeta(&shell.ShellMeta{Command: "echo", Args: []string{string(marker)}})
 				must(err)
@@ -402,13 +420,33 @@ func (s *c04hState) ping(stream uint64, payload []byte) string {
 		}
 		return len(marker) > 0 && bytes.Contains(all, marker)
 	}
-	wait := 3 * time.Second // only spent when no echo comes back
-	if faulty {
-		wait = 900 * time.Millisecond
-	}
-	got := s.waitFor(wait, gotEcho)
-	if faulty && !got {
-		time.Sleep(450 * time.Millisecond) // leave room for a retry path to show itself
+	// Liveness must not depend on machine load: when something was sent, wait on the writer's events with
+	// a long deadline (a healthy handler answers in milliseconds; only a dead tunnel pays it), re-sending
+	// UDP datagrams every second. Nothing sent (no handshake, closed, shell command already run): no wait.
+	// Fault cases are answered `anyof pong | nopong` by the model, so a short wait is enough there — it only
+	// has to leave room for a retry path to show what it writes.
+	got := false
+	switch {
+	case !sent:
+	case faulty:
+		got = s.waitFor(900*time.Millisecond, gotEcho)
+		if !got {
+			time.Sleep(450 * time.Millisecond)
+		}
+	default:
+		rounds := 25 // seconds; a healthy handler answers in milliseconds, only a dead tunnel pays this
+		if s.sawDead || s.reused[stream] {
+			rounds = 3
+		}
+		for i := 0; i < rounds && !got; i++ {
+			got = s.waitFor(time.Second, gotEcho)
+			if !got && s.kind == "udp" {
+				resend()
+			}
+		}
+		if !got {
+			s.sawDead = true
+		}
 	}
 	s.w.mu.Lock()
 	defer s.w.mu.Unlock()
